@@ -21,7 +21,7 @@ RULE = ("(word) all 65536 16-bit words, one case per word (1-D one-element call 
 EXHAUSTIVE_NOTE = "all 65536 sync words enumerated (per-word and vectorised calls); trains and fronts are sampled"
 ASSUMPTIONS = ["one digital word per sample (dw = 1), as the 16 lines of the property imply",
                "analog levels are never placed within 2 LSB of the threshold, and the floor percentile equals the constant floor"]
-BUDGET = {"quick": 8000, "thorough": 60000}
+BUDGET = {"quick": 8000, "thorough": 250000}
 
 
 def enum_shards(tier):
